@@ -238,6 +238,8 @@ def _install():
          "recover_upstream", real="on_error_resume_next")
     _reg("repeat", "any", lambda c: A(c.rnd.randint(0, 2)), "recover")
     _reg("retry", "any", lambda c: A(c.rnd.randint(1, 2)), "recover")
+    _reg("retry_zero", "any", lambda c: A(0), "recover", real="retry")      # a count of exactly 0 is not "no count"
+    _reg("repeat_zero", "any", lambda c: A(0), "recover", real="repeat")
     _reg("while_do", "any", lambda c: A(c.cb(lambda _: c.rnd.random() < 0.4)), "recover")
     _reg("do_while", "any", lambda c: A(c.cb(lambda _: c.rnd.random() < 0.4)), "recover")
     # ---- merging / switching (higher order)
